@@ -262,6 +262,9 @@ def optimal_task(task):
         code = build_code(cls, size, None, None)
         kw = {'deformation_axis': ax} if ax else {}
         em = PauliErrorModel(*direction, deformation_name=dn, deformation_kwargs=kw)
+        # two decoders built one after the other from the SAME noise-model object, code object and rate (what a batch run
+        # does for repeated parameter sets): the second one is judged; where the first one answers differently it is judged too
+        dec_first = MatchingDecoder(code, em, p)
         dec = MatchingDecoder(code, em, p)
         n = code.n
         rec['n'] = int(n)
@@ -313,11 +316,15 @@ def optimal_task(task):
                 e[n + q] = (ez >> q) & 1
             syn = code.measure_syndrome(e)
             c = np.asarray(dec.decode(syn)) % 2
+            c1 = np.asarray(dec_first.decode(syn)) % 2
             sz_ = [int(b) for b in np.asarray(code.extract_z_syndrome(syn))]
             sx_ = [int(b) for b in np.asarray(code.extract_x_syndrome(syn))]
-            rec['cases'].append({'ex': [q for q in range(n) if (ex >> q) & 1], 'ez': [q for q in range(n) if (ez >> q) & 1],
-                                 'syn_zpart': sz_, 'syn_xpart': sx_,
-                                 'cx': [int(i) for i in np.nonzero(c[:n])[0]], 'cz': [int(i) for i in np.nonzero(c[n:])[0]]})
+            for built, cc_ in ((2, c), (1, c1)):
+                if built == 1 and np.array_equal(c, c1):
+                    continue
+                rec['cases'].append({'ex': [q for q in range(n) if (ex >> q) & 1], 'ez': [q for q in range(n) if (ez >> q) & 1],
+                                     'syn_zpart': sz_, 'syn_xpart': sx_, 'decoder_built': built,
+                                     'cx': [int(i) for i in np.nonzero(cc_[:n])[0]], 'cz': [int(i) for i in np.nonzero(cc_[n:])[0]]})
     except Exception as ex:
         import traceback
         rec['error'] = '%s: %s' % (type(ex).__name__, ex)
@@ -341,8 +348,9 @@ def correct_task(task):
             rng = random.Random('%s/%s/%d' % (cls, size, seed))
             for w in range(1, t + 1):
                 supports = list(itertools.combinations(range(n), w))
-                if tier == 'quick' and len(supports) * 3 ** w > 1500:
-                    supports = rng.sample(supports, 1500 // 3 ** w)
+                cap = 1500 if tier == 'quick' else (30000 if decname == 'UnionFindDecoder' else 150000)
+                if len(supports) * 3 ** w > cap:
+                    supports = rng.sample(supports, cap // 3 ** w)
                 for supp in supports:
                     for ps in itertools.product((1, 2, 3), repeat=w):
                         e = np.zeros(2 * n, dtype='uint8')
